@@ -718,6 +718,15 @@ func (e *Env) call(c *ECall) TV {
 		}
 		comp := st.comp("MU!"+typeName(pr.Root)+"!"+fieldNameAt(pr.Root, pr.Path), ArrSort(SI, SB))
 		return TV{Sel(comp, pr.Ref), types.Typ[types.Bool]}
+	case "oncedone":
+		// oncedone(x.once): the sync.Once field has already run its function
+		p := e.eval(c.Args[0])
+		pr, ok := p.V.(*PRef)
+		if !ok {
+			sfail("oncedone() needs a struct field")
+		}
+		comp := st.comp("ONCE!"+typeName(pr.Root)+"!"+fieldNameAt(pr.Root, pr.Path), ArrSort(SI, SB))
+		return TV{Sel(comp, pr.Ref), types.Typ[types.Bool]}
 	case "dcalls":
 		// calls made directly by this function (not through callees or the environment)
 		key := exprKey(c.Args[0])
